@@ -6,7 +6,7 @@ dask/dataframe/dask_expr/_indexing.py, on frames with known divisions.
 Python                                                        Lean
 ------                                                        ----
 `indexing._partitions_of_index_values` (the loop)             `addLabel`, `routeLoop`
-`sorted(_partitions_of_index_values(...).items())`            `routeItems` (closed form; `= routeLoop`: Lemmas/LocList)
+`sorted(_partitions_of_index_values(...).items())`            `routeItems` (closed form; `= routeLoop`: `routeLoop_eq_routeItems`)
 `LocList._layer_information` divisions                        `locListDivs`
 `methods.loc(partition, [labels], cindexer)` = `df.loc[[..]]` `pandasLocList`
 `LocList._layer_information` tasks evaluated                  `locListParts`
